@@ -12,5 +12,8 @@ CONSTANTS
   M_ResetBegin = TRUE
   M_ResetBuf = TRUE
   M_SkipParent = TRUE
-INVARIANTS TypeOK FramingOK BodyIs SplitBodiesInOrder SplitCoversModuloD14 AckOnlyCovered NoDuplicateAccept
+  M_ReencodeAfterGiveUp = TRUE
+  Retry = 1
+  DeadQueueModes = {TRUE, FALSE}
+INVARIANTS TypeOK FramingOK BodyIs SplitBodiesInOrder SplitCoversModuloD14 AckOnlyCovered NoDuplicateAccept GiveUpOnlyAfterRetries
 CHECK_DEADLOCK FALSE
